@@ -21,6 +21,11 @@ open KaVerif Num Eval
 def refusesSize (code : Option BodyCode) (args : List Val) : Option String :=
   match code, args with
   | some .range, [.num (.int lo), .num (.int hi)] => if (hi + 1 - lo).toNat > maxRange then some "huge range" else Option.none
+  | some .kaRange, [.num lo, .num hi, .num step] =>
+    -- `bKaRange` declines a nominal length beyond `maxRange` after its two guards passed (the translated `while` loop would
+    -- only stop at `pyLoopFuel`, after 20000 quadratic `append`s)
+    if cmpLt (.int 0) step && cmpLe lo hi && decide ((((hi.toRat - lo.toRat) / step.toRat).floor.toNat) + 3 > maxRange)
+    then some "huge range" else Option.none
   | _, _ => Option.none
 
 /-- `Eval.dispatchV` with the translated bodies `tbl` taking precedence over the hand-written ones -/
